@@ -4,6 +4,8 @@ import (
 	"context"
 	"errors"
 	"fmt"
+	ds "github.com/ipfs/go-datastore"
+	contextds "github.com/ipfs/go-datastore/context"
 	"os"
 	"sort"
 	"strings"
@@ -381,10 +383,20 @@ func concCase(prop string, r *rng, tier string) {
 // NON-contiguous height is parked right after its (missing) datastore read; meanwhile the header is appended
 // and synced (pending.Append + Notify have happened); then the reader continues: it must still get the header.
 func gatedCase(prop string, target, head uint64, batch int) {
+	gatedCaseOn(prop, "plain", "after", target, head, batch)
+}
+
+// flavour: plain | ctx (context-aware datastore whose read transactions are snapshots); where: the reader is parked
+// "before" its first datastore read of the target's height key, or "after" it (holding a not-found answer)
+func gatedCaseOn(prop, flavour, where string, target, head uint64, batch int) {
 	ctx := context.Background()
 	chain := vhdr.Chain("A", 12, time.Now().Add(-time.Hour).UnixNano(), 1e9, 0)
 	core := memds.NewCore()
-	st, err := store.NewStore[*vhdr.Header](&memds.Plain{C: core}, store.WithWriteBatchSize(batch))
+	var dsi ds.Batching = &memds.Plain{C: core}
+	if flavour == "ctx" {
+		dsi = contextds.WrapDatastore(&memds.Txn{Plain: memds.Plain{C: core}}).(ds.Batching)
+	}
+	st, err := store.NewStore[*vhdr.Header](dsi, store.WithWriteBatchSize(batch))
 	if err != nil {
 		panic(err)
 	}
@@ -397,9 +409,17 @@ func gatedCase(prop string, target, head uint64, batch int) {
 	parked, release := make(chan struct{}), make(chan struct{})
 	var once sync.Once
 	key := fmt.Sprintf("/headers/%d", target)
-	core.GetGateAfter = func(k string, found bool) {
-		if k == key && !found {
-			once.Do(func() { close(parked); <-release })
+	if where == "before" {
+		core.GetGate = func(k string) {
+			if k == key {
+				once.Do(func() { close(parked); <-release })
+			}
+		}
+	} else {
+		core.GetGateAfter = func(k string, found bool) {
+			if k == key && !found {
+				once.Do(func() { close(parked); <-release })
+			}
 		}
 	}
 	res := make(chan string, 1)
@@ -422,11 +442,17 @@ func gatedCase(prop string, target, head uint64, batch int) {
 	case <-parked:
 	case <-time.After(time.Second):
 	}
-	_ = st.Append(ctx, chain[target-1])
+	if flavour == "ctx" && target > head+1 {
+		// everything up to and beyond the target arrives and is flushed out of the pending batch while the reader is held
+		_ = st.Append(ctx, chain[head:target+1]...)
+	} else {
+		_ = st.Append(ctx, chain[target-1])
+	}
 	_ = st.Sync(ctx)
 	close(release)
 	out := <-res
-	emit("%s kind=gated target=%d head=%d batch=%d => result=%s", prop, target, head, batch, out)
+	core.GetGate, core.GetGateAfter = nil, nil
+	emit("%s kind=gated flavour=%s where=%s target=%d head=%d batch=%d => result=%s", prop, flavour, where, target, head, batch, out)
 }
 
 // syncDrainCase: several Append batches are queued while the flusher is held at the start of the first;
@@ -847,11 +873,20 @@ func runConc(prop, tier string, r *rng) {
 		for _, nb := range []int{2, 3, 5, 9} {
 			syncDrainCase(prop, nb)
 		}
+		for _, fault := range []bool{false, true} {
+			resumeWalkCase(prop, fault)
+		}
 	}
 	if prop == "C12" {
 		for _, b := range []int{1, 2, 64} {
 			gatedCase(prop, 9, 5, b) // not contiguous with Head
 			gatedCase(prop, 6, 5, b) // contiguous
+			for _, where := range []string{"before", "after"} {
+				gatedCaseOn(prop, "ctx", where, 9, 5, b)
+				gatedCaseOn(prop, "ctx", where, 6, 5, b)
+				gatedCaseOn(prop, "ctx", where, 3, 1, b)
+				gatedCaseOn(prop, "plain", where, 3, 1, b)
+			}
 		}
 	}
 	if os.Getenv("VERIF_NO_HOOKS") != "" {
@@ -873,4 +908,50 @@ func runConc(prop, tier string, r *rng) {
 			os.Exit(0)
 		}
 	}
+}
+
+// resumeWalkCase: writers append chunks out of order (1..3, then 7..10, then 4..6, then 11..12), each followed by Sync; the
+// upper chunk is on disk and out of the pending batch when the lower one arrives. With fault=true exactly one datastore read
+// of the height index fails (transiently) while Head is walked forward into the flushed chunk. After all writers have
+// finished, Head is the top of the chain either way.
+func resumeWalkCase(prop string, fault bool) {
+	ctx := context.Background()
+	chain := vhdr.Chain("A", 12, time.Now().Add(-time.Hour).UnixNano(), 1e9, 0)
+	core := memds.NewCore()
+	st, err := store.NewStore[*vhdr.Header](&memds.Plain{C: core}, store.WithWriteBatchSize(2), store.WithStoreCacheSize(2), store.WithIndexCacheSize(2))
+	if err != nil {
+		panic(err)
+	}
+	if err := func() error { sc, end := startCtx(); defer end(); return st.Start(sc) }(); err != nil {
+		panic(err)
+	}
+	defer st.Stop(ctx) //nolint:errcheck
+	mon := watchHead(st)
+	_ = st.Append(ctx, chain[0:3]...)
+	_ = st.Sync(ctx)
+	_ = st.Append(ctx, chain[6:10]...)
+	_ = st.Sync(ctx)
+	if fault {
+		var once sync.Once
+		core.GetFault = func(k string) (f bool) {
+			if k == "/headers/7" {
+				once.Do(func() { f = true })
+			}
+			return f
+		}
+	}
+	_ = st.Append(ctx, chain[3:6]...)
+	_ = st.Sync(ctx)
+	mid := st.Height()
+	_ = st.Append(ctx, chain[10:12]...)
+	_ = st.Sync(ctx)
+	core.GetFault = nil
+	hd := st.Height()
+	readable := 0
+	for h := 1; h <= 12; h++ {
+		if x, err := st.GetByHeight(cancelled, uint64(h)); err == nil && x.H == uint64(h) {
+			readable++
+		}
+	}
+	emit("%s kind=resumewalk fault=%d => mid=%d head=%d readable=%d monitor=%s", prop, b2i(fault), mid, hd, readable, mon.finish())
 }
